@@ -99,3 +99,39 @@ def gen_replay(leg, prop, tier, seed, workdir, report):
     report["legs"][-1]["behaviours"] = len(lines)
     report["legs"][-1]["generator_states"] = states
     return viols
+
+
+def apalache_inductive(leg, prop, tier, seed, workdir, report):
+    """Unbounded safety with Apalache: Init => IndInv, IndInv /\\ Next => IndInv', IndInv => each consequence; the named
+    deviation must break the induction step."""
+    import subprocess, time, shutil
+    spec = os.path.join(R.SPEC, leg["spec"])
+    out_dir = os.path.join(workdir, "apalache")
+    runs = [("base", ["--cinit=ConstInit", "--inv=IndInv", "--length=0"], True),
+            ("step", ["--cinit=ConstInit", "--init=IndInit", "--inv=IndInv", "--length=1"], True)]
+    for c in leg.get("consequences", []):
+        runs.append(("implies_" + c, ["--cinit=ConstInit", "--init=IndInit", "--inv=" + c, "--length=0"], True))
+    if leg.get("deviation_cinit"):
+        runs.append(("deviation", ["--cinit=" + leg["deviation_cinit"], "--init=IndInit", "--inv=IndInv", "--length=1"], False))
+    viols = []
+    t0 = time.time()
+    res = []
+    for name, args, expect_ok in runs:
+        cmd = ["timeout", str(leg.get("timeout", 900)), "apalache-mc", "check", "--out-dir=" + out_dir] + args + [spec]
+        p = subprocess.run(cmd, stdout=subprocess.PIPE, stderr=subprocess.STDOUT, text=True, cwd=workdir)
+        ok = "The outcome is: NoError" in p.stdout
+        err = "The outcome is: Error" in p.stdout
+        if not ok and not err:
+            raise R.ToolError("apalache did not decide %s/%s:\n%s" % (leg["spec"], name, p.stdout[-1500:]))
+        res.append({"obligation": name, "holds": ok})
+        if ok != expect_ok:
+            rdir = os.path.join(R.ROOT, "evidence", "replay")
+            os.makedirs(rdir, exist_ok=True)
+            rp = os.path.join(rdir, "%s_apalache_%s.txt" % (prop, name))
+            open(rp, "w").write(p.stdout[-6000:])
+            why = ("inductive obligation %s fails" % name) if expect_ok else "the deviation no longer breaks the induction step (stale deviation)"
+            viols.append({"property": prop, "reason": "apalache: " + why, "replay": rp, "leg": leg["name"], "seed": "-"})
+    shutil.rmtree(out_dir, ignore_errors=True)
+    report["legs"].append({"kind": "model", "name": leg["name"], "spec": leg["spec"], "cfg": "apalache:" + leg["name"], "engine": "apalache (inductive invariant, unbounded constants)",
+                           "obligations": res, "wall_s": round(time.time() - t0, 1), "states": 0, "transitions": 0, "violations": len(viols)})
+    return viols
